@@ -42,7 +42,9 @@ type HistOutcome struct {
 
 func (x *XSpec) RunHistory(hist []Op, wantDump bool) HistOutcome {
 	if x.ExecNode != nil {
-		return x.ExecNode(x, hist, wantDump)
+		o := x.ExecNode(x, hist, wantDump)
+		ConformanceCheck()
+		return o
 	}
 	var out HistOutcome
 	deadEnd = false
@@ -52,6 +54,7 @@ func (x *XSpec) RunHistory(hist []Op, wantDump bool) HistOutcome {
 	})
 	out.Dead = deadEnd
 	out.Next = nextOps
+	ConformanceCheck()
 	out.absorb(res, len(hist))
 	return out
 }
